@@ -35,10 +35,12 @@ META = dict(
 INS = collections.OrderedDict([
     ("sp", " "), ("tab", "\t"), ("nl", "\n"), ("cmt", "/**/"), ("cmt2", "/* ; { */"),
     ("lcmt", "// x\n"), ("linedir", '\n# 7 "f//g...h"\n'), ("cont", "\\\n"),
+    # the other spellings of a line directive: several digits + gcc's trailing flags, and '#line'
+    ("linedir2", '\n# 12 "d//e...f" 1 3\n'), ("linedir3", '\n#line 35 "x//y...z"\n'),
 ])
-NEWLINE_BEARING = ("nl", "lcmt", "linedir")
+NEWLINE_BEARING = ("nl", "lcmt", "linedir", "linedir2", "linedir3")
 INS_CLASS = {"sp": "space", "tab": "space", "nl": "newline", "cmt": "comment", "cmt2": "comment",
-             "lcmt": "line_comment", "linedir": "linedir", "cont": "cont"}
+             "lcmt": "line_comment", "linedir": "linedir", "linedir2": "linedir", "linedir3": "linedir", "cont": "cont"}
 INT_WORDS = ("int", "long", "short", "signed", "unsigned", "char")
 
 
@@ -369,7 +371,7 @@ def run(ctx):
             ctx.violation({"kind": "corpus_rejected", "entry": CORPUS[i][0], "exc": b["cdef"][1]},
                           {"entry": i, "name": CORPUS[i][0], "case": [], "text": CORPUS[i][1], "observed": b["cdef"][2]})
     # quick tier: the tab (same class as the blank in every regex of cparser) is inserted alone only
-    pair_kinds = [k for k in INS if k != "tab"] if ctx.quick else list(INS)
+    pair_kinds = [k for k in INS if k not in ("tab", "linedir2", "linedir3")] if ctx.quick else list(INS)
     items, nsingle, npair = build_cases(maxdist, pair_kinds)
     ctx.log("%d corpus cdefs, %d tokens, %d single insertions, %d pairs (gap distance <= %d)" % (
         len(CORPUS), sum(len(entry(i).toks) for i in range(len(CORPUS))), nsingle, npair, maxdist))
